@@ -13,13 +13,17 @@ slices=[
  sl("DataSet_copyctor.inc", r"DataSet\s*\(\s*const\s+DataSet&\s*old\s*\)\s*:[^{;]*"),
  {"as":"DataSet_copyctor_init.inc","file":F,"region_start":r"(?<=DataSet\(const DataSet& old\))\s*:","region_end":r"\{"},
 ]
+MEM_MUT={
+ "reMax":[{"name":"key_block","slice":"DataSet_reMax.inc","find":"spx_realloc(thekey,  themax);","replace":"spx_realloc(thekey,  thenum);"}],
+ "assign":[{"name":"no_grow","slice":"DataSet_assign.inc","find":"if(rhs.size() > max())","replace":"if(rhs.num() > max())"}],
+ "copyctor":[{"name":"alloc_num","slice":"DataSet_copyctor.inc","find":"spx_alloc(thekey, themax);","replace":"spx_alloc(thekey, thenum);"}]}
 RM=r"DataSetHost::reMax\(.*\)"; AS=r"DataSetHost::operator=\(.*\)"; CC=r"DataSetHost::DataSetHost\(this,.+\)"
 u={
  "property":["C19"],
  "desc":"DataSet<int>: reMax(int), copy constructor, operator= - real bodies (and the real initialiser list) from dataset.h, real class DataKey",
  "rmode":"int (DATA = int, no arithmetic abstraction)",
  "defines":{"CAP":"4"}, "defines_thorough":{"CAP":"4"}, "defines_small":{"CAP":"2"},
- "flags":["--bounds-check","--pointer-check","--signed-overflow-check"],
+ "flags":["--bounds-check","--pointer-check","--signed-overflow-check","--object-bits","7"],
  "timeout_s":300,
  "slices":slices,
  "extracts":[{"as":"DataKey.inc","file":"src/soplex/datakey.h","regex":r"class DataKey\s*\{.*?\n\};"}],
@@ -34,23 +38,24 @@ u={
  "trusted":[
   "DataSetHost replicates DataSet's data members (conformance-checked); every member-function body and the copy constructor's initialiser list are the real text; DataKey is the real class text",
   "DATA instantiated at int (memcpy-able, as the class documents); the C contract views Item[] and DataKey[] as 64-bit cells (two-int structs, no padding)",
-  "spx_alloc/spx_realloc/spx_free: the real ones minus the out-of-memory exception (allocation assumed to succeed; `try/catch(SPxMemoryException)` compiled as dead code); malloc/free are CBMC's C library models; memcpy is replaced by its ISO C contract (verif_memcpy: both ranges valid and in different objects - checked at every call -, destination cells = source cells, nothing else written); realloc is replaced by its ISO C contract (verif_realloc: fresh block of the new size, the common prefix of at most CAP cells preserved cell by cell, old block released; its precondition - a live heap block of the recorded length - is checked at each call)",
-  "capacity capped: max() <= CAP = 4 for both operands, reMax argument in [-2*CAP, 2*CAP]; the arrays have EXACTLY max() cells; INV of the operands is supplied at every cell below CAP by explicit conjunction (stubs/rep.h) and all loops (free-list walks, element-wise copies) are unwound completely with --unwinding-assertions: exhaustive proofs for every pair of sets of at most that capacity, not inductive ones",
+  "spx_alloc/spx_realloc/spx_free: the real ones minus the out-of-memory exception (allocation assumed to succeed; `try/catch(SPxMemoryException)` compiled as dead code); malloc/free are CBMC's C library models; memcpy is a cell-wise copy loop for whole 8-byte cells between different objects (both asserted at every call; every access bounds-checked); realloc = malloc of the new size + copy of the common prefix + free of the old block (CBMC's library model with the same explicit copy loop)",
+  "capacity capped: max() <= CAP = 4 for both operands, reMax argument in [-2*CAP, 2*CAP]; functional instances use constant-size blocks (CAP cells for the operands, 2*CAP+1 for malloc/realloc results) and prove the full postcondition, their `_mem` twins use blocks of EXACTLY the size the code asked for and prove memory safety, frame and absence of exceptions only; INV of the operands is supplied at every cell below CAP by explicit conjunction (stubs/rep.h) and all loops (free-list walks, element-wise copies) are unwound completely with --unwinding-assertions: exhaustive proofs for every pair of sets of at most that capacity, not inductive ones",
   "ghost rank arrays (distance to the end of the free list) are specification-only; they restrict no real input",
-  "assert() compiled out (NDEBUG semantics)",
+  "reMax's return value `reinterpret_cast<char*>(theitem) - reinterpret_cast<char*>(old_theitem)` (distance between the new and the released block; undefined in ISO C++, the code relies on a flat address space) is evaluated as the difference of the integer addresses",
+  "cbmc runs with --object-bits 7 (at most 128 objects; more is an error, not a miss); assert() compiled out (NDEBUG semantics)",
  ],
  "instances":[]
 }
 u["instances"].append({"name":"reMax","function":"DataSet<DATA>::reMax(int newmax = 0) [+ spx_realloc]","defines":{"INST_reMax":""},
-  "harness":"h_reMax","enforce":"w_reMax","replace":["verif_realloc"],"unwind":12,"unwind_loops":[{"function":RM,"loop":0}],"min_obligations":60,
+  "harness":"h_reMax","enforce":"w_reMax","unwind":12,"unwind_loops":[{"function":RM,"loop":0},{"function":"verif_realloc","loop":0},{"function":"verif_memcpy","loop":0}],"min_obligations":60,
   "mutants":[{"name":"end_marker","slice":"DataSet_reMax.inc","find":"*lastfree = -newmax - 1;","replace":"*lastfree = -newmax;"},
              {"name":"no_clamp","slice":"DataSet_reMax.inc","find":"newmax = (newmax < size()) ? size() : newmax;","replace":"newmax = (newmax < num()) ? num() : newmax;"},
              {"name":"fixup_after_realloc","slice":"DataSet_reMax.inc","regex":True,
               "find":r"\*lastfree = -newmax - 1;\s*themax = newmax;\s*spx_realloc\(theitem, themax\);","replace":"themax = newmax;\n spx_realloc(theitem, themax);\n *lastfree = -newmax - 1;"},
              {"name":"key_block","slice":"DataSet_reMax.inc","find":"spx_realloc(thekey,  themax);","replace":"spx_realloc(thekey,  thenum);"}]})
 u["instances"].append({"name":"assign","function":"DataSet<DATA>::operator=(const DataSet<DATA>& rhs) [+ reMax, clear]","defines":{"INST_assign":""},
-  "harness":"h_assign","enforce":"w_assign","replace":["verif_realloc","verif_memcpy"],"unwind":12,
-  "unwind_loops":[{"function":RM,"loop":0},{"function":AS,"loop":0},{"function":AS,"loop":1},{"function":AS,"loop":2}],"min_obligations":80,
+  "harness":"h_assign","enforce":"w_assign","unwind":12,
+  "unwind_loops":[{"function":RM,"loop":0},{"function":"verif_realloc","loop":0},{"function":AS,"loop":0},{"function":AS,"loop":1},{"function":AS,"loop":2},{"function":"verif_memcpy","loop":0}],"min_obligations":80,
   "mutants":[{"name":"memcpy_num","slice":"DataSet_assign.inc","regex":True,
               "find":r"for\(i = 0; i < rhs\.size\(\); \+\+i\)\s*memcpy\(&theitem\[i\], &rhs\.theitem\[i\], sizeof\(\*theitem\)\);\s*for\(i = 0; i < rhs\.num\(\); \+\+i\)\s*thekey\[i\] = rhs\.thekey\[i\];",
               "replace":"memcpy(theitem, rhs.theitem, rhs.num() * sizeof(*theitem));\n memcpy(thekey, rhs.thekey, rhs.num() * sizeof(*thekey));"},
@@ -60,8 +65,17 @@ u["instances"].append({"name":"assign","function":"DataSet<DATA>::operator=(cons
              {"name":"no_grow","slice":"DataSet_assign.inc","find":"if(rhs.size() > max())","replace":"if(rhs.num() > max())"},
              {"name":"size_num","slice":"DataSet_assign.inc","find":"thesize = rhs.thesize;","replace":"thesize = rhs.thenum;"}]})
 u["instances"].append({"name":"copyctor","function":"DataSet<DATA>::DataSet(const DataSet& old)","defines":{"INST_copyctor":""},
-  "harness":"h_copyctor","enforce":"w_copyctor","replace":["verif_memcpy","verif_malloc"],"unwind":2,"unwind_loops":[{"function":CC,"loop":0}],"min_obligations":30,
+  "harness":"h_copyctor","enforce":"w_copyctor","unwind":6,"unwind_loops":[{"function":CC,"loop":0},{"function":"verif_memcpy","loop":0}],"min_obligations":30,
   "mutants":[{"name":"init_size","slice":"DataSet_copyctor_init.inc","find":"thesize(old.thesize)","replace":"thesize(old.thenum)"},
              {"name":"items_num","slice":"DataSet_copyctor.inc","find":"memcpy(theitem, old.theitem, themax * sizeof(*theitem));","replace":"memcpy(theitem, old.theitem, thenum * sizeof(*theitem));"},
              {"name":"keys_short","slice":"DataSet_copyctor.inc","find":"memcpy(thekey,  old.thekey,  themax * sizeof(*thekey));","replace":"memcpy(thekey,  old.thekey,  (thenum - 1) * sizeof(*thekey));"}]})
+EXP={"reMax":30,"assign":30,"copyctor":5}
+twins=[]
+for i in u["instances"]:
+    i["expected_s"]=EXP[i["name"]]
+    m=json.loads(json.dumps(i)); m["name"]=i["name"]+"_mem"; m["defines"]["EXACT_ALLOC"]=""
+    m["function"]=i["function"]+"  [memory safety, blocks of exactly the requested size]"
+    m["min_obligations"]=i["min_obligations"]//2; m["mutants"]=MEM_MUT[i["name"]]
+    twins.append(m)
+u["instances"]+=twins
 json.dump(u, open(os.path.join(os.path.dirname(os.path.abspath(__file__)), "unit.json"), "w"), indent=1)
